@@ -1,12 +1,15 @@
-(* Impl model of facs.rs *)
+(* Impl model of facs.rs.  Case vocabulary: see Spec/FacsS.v.
+   FACS is one #[repr(C, packed)] struct of 64 bytes, Copy, built by FACS::new(); its fields are `pub` (except the two reserved
+   arrays) and callers fill it by assigning them directly (`f.hardware_signature = 0x1234.into()`).  It has no checksum and
+   is serialised through as_bytes() (aml_as_bytes!). *)
 From Coq Require Import NArith List Bool.
 From ACPI Require Import Lib.Bytes Lib.Sx Lib.Machine Impl.Checksum Impl.Table Impl.Fields Impl.Run.
 Import ListNotations.
 Open Scope N_scope.
 
-(* struct FACS (packed, 64 bytes), fields in declaration order:
-   0 signature[4] ... 4 length 5 hardware_signature 6 waking 7 lock 8 flags 9 x_waking 10 version 11.. _reserved1[3]
-   14 ospm_flags 15.. _reserved2[24] *)
+(* struct FACS (packed, 64 bytes), fields in declaration order ([u8; K] fields are one field per byte):
+   0..3 signature[4]  4 length  5 hardware_signature  6 waking  7 lock  8 flags  9 x_waking  10 version  11..13 _reserved1[3]
+   14 ospm_flags  15..38 _reserved2[24] *)
 Definition facs_new_flds : flds :=
   fbytes [70; 65; 67; 83]                               (* "FACS" *)
   ++ [F 4 64;                                           (* length = size_of::<FACS>() as u32 *)
@@ -22,7 +25,22 @@ Definition facs_new (c : sx) : option flds :=
   | _ => None
   end.
 
-Definition facs_step (md : mode) (s : flds) (o : sx) : option (flds * list ev) := None.
+(* direct assignment of a public field, `f.<field> = (v as uN).into()`: (field index, width in bytes) of the k-th `pub`
+   field after signature and length, in declaration order:
+   hardware_signature waking lock flags x_waking version ospm_flags *)
+Definition FACS_ASSIGNABLE : list (nat * nat) := [(5, 4); (6, 4); (7, 4); (8, 4); (9, 8); (10, 1); (14, 4)]%nat.
+
+Definition facs_assign_m (s : flds) (k v : N) : option flds :=
+  match nth_error FACS_ASSIGNABLE (N.to_nat k) with
+  | Some (i, w) => Some (fset s i (v mod 2 ^ (8 * N.of_nat w)))
+  | None => None
+  end.
+
+Definition facs_step (md : mode) (s : flds) (o : sx) : option (flds * list ev) :=
+  match o with
+  | SL [SA 10; SA k; SA v] => do s' <- facs_assign_m s k v; Some (s', [EvNum 0])
+  | _ => None
+  end.
 
 Definition facs_case (md : mode) (c : sx) : list ev :=
   run_history (fun s => Some (ser_flds s)) (facs_step md) facs_new c.
